@@ -17,7 +17,9 @@ S_A1 = {"type": "record", "name": "ns.Event", "fields": [
     {"name": "p", "type": {"type": "record", "name": "Point", "fields": [{"name": "x", "type": "int"}, {"name": "y", "type": "int", "default": 7}]}},
     {"name": "q", "type": ["null", "Point"], "default": None},
     {"name": "tags", "type": {"type": "array", "items": "string"}, "default": ["a", "b"]},
-    {"name": "m", "type": {"type": "map", "values": "long"}, "default": {"k": 1}}]}
+    {"name": "m", "type": {"type": "map", "values": "long"}, "default": {"k": 1}},
+    {"name": "grid", "type": {"type": "array", "items": {"type": "array", "items": "int"}}, "default": [[1, 2], [3]]},
+    {"name": "mm", "type": {"type": "map", "values": {"type": "array", "items": "string"}}, "default": {"k": ["v", "w"]}}]}
 S_A2 = {"type": "record", "name": "ns.Event", "fields": [
     {"name": "label", "type": "string"},
     {"name": "p", "type": {"type": "record", "name": "Point", "fields": [{"name": "lat", "type": "double"}]}},
@@ -31,7 +33,9 @@ S_COLOR2 = {"type": "record", "name": "ns.UsesColor", "fields": [{"name": "c", "
 S_DEC5 = {"type": "bytes", "logicalType": "decimal", "precision": 5, "scale": 2}
 S_DEC20 = {"type": "bytes", "logicalType": "decimal", "precision": 20, "scale": 2}
 S_READER = {"type": "record", "name": "ns.Event", "fields": [{"name": "id", "type": "long"}, {"name": "extra", "type": "string", "default": "dflt"},
-                                                            {"name": "m", "type": {"type": "map", "values": "long"}, "default": {"d": 4}}]}
+                                                            {"name": "m", "type": {"type": "map", "values": "long"}, "default": {"d": 4}},
+                                                            {"name": "deep", "type": {"type": "map", "values": {"type": "array", "items": "int"}},
+                                                             "default": {"d": [4, 5]}}]}
 
 
 def _sl(fa, schema, datum, **kw):
@@ -98,6 +102,32 @@ def build_calls(tmpdir):
         return {"bytes": fo.getvalue(), "records": list(rd), "meta_keys": sorted(rd.metadata)}
     add("container_A2", lambda: {"schema": copy.deepcopy(S_A2), "records": [copy.deepcopy(D_A2)] * 2}, container_rt)
 
+    def writer_object(fa, a, sh):
+        # the Writer object used directly: failed write() calls of several exception kinds are swallowed, later records must not notice
+        from fastavro.write import Writer
+        fo = io.BytesIO()
+        w = Writer(fo, a["schema"], sync_marker=b"0123456789abcdef")
+        raised = []
+        for r in a["records"]:
+            try:
+                w.write(r)
+            except Exception as e:  # noqa: BLE001
+                raised.append(type(e).__name__)
+        w.flush()
+        fo2 = io.BytesIO()
+        w2 = Writer(fo2, a["schema"], sync_marker=b"0123456789abcdef")
+        for r in a["records"]:
+            if r["id"] in a["good"]:
+                w2.write(r)
+        w2.flush()
+        # the file is the one a Writer produces that never saw the rejected records
+        return {"raised": raised, "bytes": fo.getvalue(), "__must__": fo.getvalue() == fo2.getvalue()}
+    S_W = {"type": "record", "name": "ns.W", "fields": [{"name": "id", "type": "long"}, {"name": "f", "type": "float"},
+                                                          {"name": "m", "type": {"type": "map", "values": "int"}}]}
+    add("writer_object_failed_writes", lambda: {"schema": copy.deepcopy(S_W), "records": [
+        {"id": 1, "f": 1.5, "m": {"a": 1}}, {"id": 2, "f": 1e39, "m": {}}, {"id": 3, "f": 0.5, "m": [1, 2]}, {"id": 4, "f": 2.5, "m": {"k": 2 ** 20}},
+        {"id": 5, "f": -1.0, "m": {"z": 0}}], "good": [1, 4, 5]}, writer_object)
+
     def val(fa, a, sh):
         from fastavro.validation import validate
         return [validate(d, a["schema"], raise_errors=False) for d in a["data"]]
@@ -117,10 +147,16 @@ def build_calls(tmpdir):
         text = fo.getvalue()
         back = list(json_reader(io.StringIO(text), a["schema"]))
         # a second read of a text that lacks the defaulted keys
-        stripped = "\n".join(json.dumps({k: v for k, v in json.loads(l).items() if k not in ("tags", "m", "q")}) for l in text.split("\n"))
+        stripped = "\n".join(json.dumps({k: v for k, v in json.loads(l).items() if k not in ("tags", "m", "q", "grid", "mm")}) for l in text.split("\n"))
         back2 = list(json_reader(io.StringIO(stripped), a["schema"]))
         return {"text": text, "back": back, "back_defaults": back2}
     add("json_A1", lambda: {"schema": copy.deepcopy(S_A1), "records": [copy.deepcopy(D_A1), copy.deepcopy(D_A1b)]}, js)
+
+    def js_shared(fa, a, sh):
+        from fastavro import json_reader
+        p1 = sh.setdefault("P1", fa.parse_schema(copy.deepcopy(S_A1)))
+        return [list(json_reader(io.StringIO(a["text"]), p1)), canon(fa, p1), _sl(fa, p1, copy.deepcopy(D_A1))]
+    add("json_read_shared_P1", lambda: {"text": '{"id": 1, "p": {"x": 2, "y": 3}}\n{"id": 2, "p": {"x": 4, "y": 5}, "grid": [[9]]}'}, js_shared)
 
     def genone(fa, a, sh):
         from fastavro.utils import generate_many
